@@ -43,3 +43,12 @@ check("C19", "S", "exploration", "differential oracle over the generated left/ri
       "node pair, and checks that unsupported types raise ValueError without touching node parameters.",
       "Trusted: the oracle's reading of the documented counterpart rules; custom networks are existing subnets or overlap none.",
       "DESIGN.md §3 C19")
+
+check("C12", "S", "exploration", "reference-model monitor: in-memory backend in the real BACKENDS registry, call log + store compared with a README-table model (icontract postconditions on the six functions)",
+      "The complete single-object single-call table (3 ops x 25 two-letter modes over {a,r,i,f,other} x presence x root presence x root/ordinary "
+      "state x nets/vms/images x 5 check modes, plus check/push/pop) is enumerated; random multi-object calls (1-3 vms x 1-2 images + net, "
+      "per-object modes, skip_types, read-only images, parameters of unselected objects) and random sequences of up to 12 calls run against a "
+      "set-of-names model; ordered backend calls, resulting store and exception class must agree, the failing step must not mutate and later "
+      "objects must not be touched.",
+      "Trusted: the model's reading of the README table and of the undocumented check_mode (second letter r/f when the root is missing, first "
+      "letter f recreates the root). The in-memory backend is not a SourcedStateBackend.", "DESIGN.md §3 C12")
